@@ -237,3 +237,40 @@ Theorem C17_history_never_loses : forall O, dee_print_ok O ->
   mag_le O (data (get_db w j)) (data (get_db (run O inits g ver ops w) j)).
 Proof. intros O HO inits g ver. exact (history_never_loses O HO inits g ver). Qed.
 Print Assumptions C17_history_never_loses.
+
+(** ** Synchronize between installations (beyond the property: convergence) *)
+
+(** "Every installation synchronises twice" is not enough in an arbitrary order: with three
+    installations synchronising back to back (u0, u0, u1, u1, u2, u2; the sync directory
+    always lists everybody) u0 ends without the entries of u1 and u2. *)
+Theorem C17_sync_twice_any_order_refuted :
+  exists ops w,
+    (forall i, In i ex_all -> 2 <= length (filter (fun o => match o with OSync j _ => Nat.eqb i j | _ => false end) ops)) /\
+    mags erased_ops (get_db (ex_run ops w) 0) <> mags erased_ops (get_db (ex_run ops w) 2).
+Proof.
+  exists [OSync 0 ex_all; OSync 0 ex_all; OSync 1 ex_all; OSync 1 ex_all; OSync 2 ex_all; OSync 2 ex_all], ex_world.
+  split.
+  - intros i [<-|[<-|[<-|[]]]]; cbn; repeat constructor.
+  - destruct ex_sync_twice_any_order as [A B]. rewrite A, B. discriminate.
+Qed.
+Print Assumptions C17_sync_twice_any_order_refuted.
+
+(** Two rounds (each installation once per round, rounds in different orders) do make the
+    three installations of the example agree on every key and commit magnitude. *)
+Theorem C17_sync_two_rounds_example :
+  let w := ex_run [OSync 0 ex_all; OSync 1 ex_all; OSync 2 ex_all; OSync 2 ex_all; OSync 0 ex_all; OSync 1 ex_all] ex_world in
+  mags erased_ops (get_db w 0) = [(ex_k1, 5%Z); (ex_k2, 1%Z); (ex_k3, 1%Z)] /\
+  mags erased_ops (get_db w 1) = mags erased_ops (get_db w 0) /\ mags erased_ops (get_db w 2) = mags erased_ops (get_db w 0).
+Proof. exact ex_sync_two_rounds. Qed.
+Print Assumptions C17_sync_two_rounds_example.
+
+(** Signs need not converge: with |ours| = |theirs| and opposite signs each side keeps its
+    own sign through any number of rounds (here three), while the magnitudes agree. *)
+Theorem C17_sync_sign_tie_example :
+  let w := ex_run [OSync 0 [0; 1]%nat; OSync 1 [0; 1]%nat; OSync 0 [0; 1]%nat; OSync 1 [0; 1]%nat; OSync 0 [0; 1]%nat; OSync 1 [0; 1]%nat]
+                  ex_world_tie in
+  map (fun e => snd (fst e)) (dump erased_ops (get_db w 0)) = [3%Z] /\
+  map (fun e => snd (fst e)) (dump erased_ops (get_db w 1)) = [(-3)%Z] /\
+  mags erased_ops (get_db w 0) = mags erased_ops (get_db w 1).
+Proof. exact ex_sync_sign_tie. Qed.
+Print Assumptions C17_sync_sign_tie_example.
